@@ -299,6 +299,22 @@ struct Injection {
     where_: &'static str,
 }
 
+/// `name` occurs in `msg` delimited by characters that cannot be part of a member name.
+fn names_word(msg: &str, name: &str) -> bool {
+    let word = |c: char| c.is_alphanumeric() || c == '_' || c == '-';
+    let mut from = 0;
+    while let Some(i) = msg[from..].find(name) {
+        let at = from + i;
+        let before = msg[..at].chars().next_back();
+        let after = msg[at + name.len()..].chars().next();
+        if !before.map(word).unwrap_or(false) && !after.map(word).unwrap_or(false) {
+            return true;
+        }
+        from = at + name.chars().next().map(|c| c.len_utf8()).unwrap_or(1);
+    }
+    false
+}
+
 /// Inserts 1..=3 undeclared members into the object member list, returns what was injected.
 fn inject(r: &mut Rng, declared: &[String], members: usize) -> (Vec<(usize, String, J)>, Injection) {
     let count = 1 + r.below(3);
@@ -360,7 +376,8 @@ impl Env<'_> {
             Err(p) => self.fail(cell, "panic", p),
             Ok(Ok(v)) => self.fail(cell, "server-accepted-unknown-field", trunc(&format!("{:?}", v))),
             Ok(Err(msg)) => {
-                if !self.inj.names.iter().any(|n| msg.contains(n.as_str())) {
+                // the name as a whole word: `abbogus` does not name the field `bogus`
+                if !self.inj.names.iter().any(|n| names_word(&msg, n)) {
                     self.fail(cell, "server-error-does-not-name-field", msg);
                 }
             }
